@@ -283,7 +283,7 @@ func ZZH_C08_AppendOther() {
 		zzvAssert(isP, "AddFootnote: appended element is a paragraph")
 	case 4:
 		data := []byte("\x89PNG\r\n\x1a\n0000")
-		info, err := d.AddImageFromData(data, zzvString(), ImageFormatPNG, zzvIntIn(1, 4000), zzvIntIn(1, 4000), nil)
+		info, err := d.AddImageFromData(data, zzhPicNames[zzvChoice(len(zzhPicNames))], ImageFormatPNG, zzvIntIn(1, 4000), zzvIntIn(1, 4000), nil)
 		zzvAssert(err == nil && info != nil, "AddImageFromData: succeeds")
 		got := d.Body.Elements
 		zzvAssert(len(got) == len(ref)+1, "AddImageFromData: exactly one element appended")
